@@ -635,7 +635,22 @@ fn scenario(c: &NetCase, world: Rc<World>, rec: &mut Rec) -> CaseResult {
         let log_start = net.st.borrow().log.len();
         let r2 = recursor.clone();
         let query = Query::new(name_of(qname), *qtype);
-        let res = sim.run(async move { r2.resolve(query, Instant::now(), false).await }, EVENT_BUDGET);
+        // every third generated query is asked twice at the same instant: the second resolution
+        // joins whatever the first has in flight (shared upstream requests, shared caches)
+        let twin = !*is_follow && (c.os_seed as usize + qi) % 3 == 2;
+        let (res, res_twin) = if twin {
+            rec.class("twin-concurrent-resolutions");
+            let (q1, q2, r3) = (query.clone(), query, recursor.clone());
+            match sim.run(
+                async move { futures_util::future::join(r2.resolve(q1, Instant::now(), false), r3.resolve(q2, Instant::now(), false)).await },
+                2 * EVENT_BUDGET,
+            ) {
+                Ok((a, b)) => (Ok(a), Some(b)),
+                Err(e) => (Err(e), None),
+            }
+        } else {
+            (sim.run(async move { r2.resolve(query, Instant::now(), false).await }, EVENT_BUDGET), None)
+        };
         if let Some(e) = net.st.borrow_mut().harness_err.take() {
             vfail!("harness-error", "simulated network: {e}");
         }
@@ -675,7 +690,7 @@ fn scenario(c: &NetCase, world: Rc<World>, rec: &mut Rec) -> CaseResult {
             }
         };
         vensure!(
-            dgrams <= qmax,
+            dgrams <= if twin { 2 * qmax } else { qmax },
             "upstream-queries-exceed-structural-bound",
             "{}",
             ctx(&format!("{dgrams} upstream datagrams > Q_max {qmax} (recursion_limit {}, ns_recursion_limit {})", cfg.recursion_limit, cfg.ns_recursion_limit))
@@ -760,8 +775,13 @@ fn scenario(c: &NetCase, world: Rc<World>, rec: &mut Rec) -> CaseResult {
         }
 
         // (a) nothing handed back is out-of-bailiwick data
-        let (records, kind) = returned_records(&res);
+        let (mut records, kind) = returned_records(&res);
         rec.class(format!("{}:{kind}", if *is_follow { "follow" } else { "query" }));
+        if let Some(rt) = &res_twin {
+            let (more, kind2) = returned_records(rt);
+            rec.class(format!("twin:{kind2}"));
+            records.extend(more);
+        }
         for (place, r) in &records {
             // RecursorError::ForwardNS (and NoRecords::ns) is a diagnostic copy of a referral that
             // no caller forwards or caches (hickory-server answers SERVFAIL for it); the property
@@ -1041,7 +1061,7 @@ pub fn check() -> Option<Check> {
     Some(Check {
         id: "C19",
         level: "exploration",
-        rule: "recursor: random simulated internets (root + <=3 zone levels, <=2 NS per zone, NS host names in the zone / its parent / any other zone, glue or not, lame / dead / refusing / SERVFAIL servers, CNAME chains of 1..20 names and loops, optional server-side CNAME chasing, reply latency 0/7/150 ms steps) served over UDP by a reference authoritative model (RFC 1034 4.3.2) to the real Recursor on a discrete-event runtime; hostile servers append marked records whose owners lie outside every zone delegated to them (A for a victim name, NS+glue for a victim zone or the root, NS pointing at an attacker host, CNAME at a victim name, address for a victim zone's NS host) to the answer / authority / additional section of all, referral, positive or negative responses; recursion_limit and ns_recursion_limit in {2..6, 12, 24}; optional deny/allow lists for servers and answers; 1-4 queries (A/AAAA/NS/CNAME/TXT) then up to 8 follow-up queries for the victims on the same Recursor. Counted non-trivial when distinct and a poison record was actually delivered to the recursor, or the graph has a glueless / self-referential / cyclic delegation, a lame or dead server, or a CNAME loop. stub_alias: CachingClient over scripted CNAME/SRV alias graphs (chains 1..20, loops, 1..20 alias records per response); non-trivial = at least one alias hop.",
+        rule: "recursor: random simulated internets (root + <=3 zone levels, <=2 NS per zone, NS host names in the zone / its parent / any other zone, glue or not, lame / dead / refusing / SERVFAIL servers, CNAME chains of 1..20 names and loops, optional server-side CNAME chasing, reply latency 0/7/150 ms steps) served over UDP by a reference authoritative model (RFC 1034 4.3.2) to the real Recursor on a discrete-event runtime; hostile servers append marked records whose owners lie outside every zone delegated to them (A for a victim name, NS+glue for a victim zone or the root, NS pointing at an attacker host, CNAME at a victim name, address for a victim zone's NS host) to the answer / authority / additional section of all, referral, positive or negative responses; recursion_limit and ns_recursion_limit in {2..6, 12, 24}; optional deny/allow lists for servers and answers; 1-4 queries (A/AAAA/NS/CNAME/TXT; every third one asked twice at the same instant so that the second resolution joins the first one's in-flight requests, both results judged) then up to 8 follow-up queries for the victims on the same Recursor. Counted non-trivial when distinct and a poison record was actually delivered to the recursor, or the graph has a glueless / self-referential / cyclic delegation, a lame or dead server, or a CNAME loop. stub_alias: CachingClient over scripted CNAME/SRV alias graphs (chains 1..20, loops, 1..20 alias records per response); non-trivial = at least one alias hop.",
         assumptions: vec![
             "DNSSEC validation off (SecurityUnaware); UDP only (responses are small, no truncation, so TCP is never needed)",
             "root hints point at working servers that carry the root zone; root servers are exempt from deny_server (they are explicit configuration)",
